@@ -282,6 +282,14 @@ pub fn r<I: Item>(stage: u8) -> impl Fn(I) -> Result<Tok, u8> + Clone + Send + S
     }
 }
 
+/// stage 3: a filter that keeps everything, placed *inside a source constructor* in front of `copied()` / `cloned()`
+/// (its calls show whether those adaptors evaluate what precedes them)
+pub const ST_PRE: u8 = 3;
+pub fn pre_stage(id: u64) -> bool {
+    let _f = enter(ST_PRE, id);
+    true
+}
+
 pub fn pred<I: Item>() -> impl Fn(&I) -> bool + Clone + Send + Sync {
     move |x: &I| {
         let _f = enter(ST_PRED, x.id());
